@@ -2,9 +2,11 @@
 # replay for failed obligation 'MeasureHomodyne._apply/homodyne/operation-untouched' (property C15)
 # case: ''; solver: z3
 # verifier output (counter-model):
-#   hbar = 1
-#   sqrt = 1
-#   sqrt!1 = 0.7071067811?
+#   /0 = [(-1/2, 1/2) -> -1, else -> 0]
+#   hbar = 1/2
+#   select_scaled = -0.7071067811?
+#   sqrt = 0.7071067811?
+#   sqrt!1 = 1/2
 #   sqrt2h = 0.7071067811?
 import sys
 print('obligation MeasureHomodyne._apply/homodyne/operation-untouched is not discharged on this tree; no failing concrete input was constructed')
